@@ -103,6 +103,20 @@ def run(ctx):
                         code.name, iname, lname, msg, tuple(r.shape)), dict(rep, layout=lname, message=msg))
                 if syn is not None and bool((syn != 0).any()):
                     ctx.violation(base % "syndrome-of-codeword", "%s: inverse_encode reports a non-zero syndrome for the encoder's own output (layout %s)" % (code.name, lname), dict(rep, layout=lname))
+        # call history: codewords returned by earlier calls must stay valid after later calls on the same object
+        sample = [X[i:i + 1] for i in sorted(rng.sample(range(B), min(B, 5)))]
+        try:
+            outs = [quiet(enc, xi) for xi in sample]
+            batch = quiet(enc, torch.cat(sample, dim=0))
+            for i, (xi, ci) in enumerate(zip(sample, outs)):
+                ctx.count("call-histories")
+                back = quiet(enc.extract_message, ci)
+                if not torch.equal(ci, batch[i:i + 1]) or not torch.equal(back.to(torch.float32), xi):
+                    ctx.violation(base % "earlier-result-changed", "%s: the codeword returned for message %s by an earlier call reads %s after later calls on the same encoder (batch value %s)" % (
+                        code.name, xi[0].tolist(), ci[0].tolist(), batch[i].tolist()), dict(rep, message=xi[0].tolist(), history="encode one message per call, then extract each"))
+                    break
+        except ERR as e:
+            ctx.violation(base % "call-history-raises", "%s: repeated single-message calls raised %s" % (code.name, str(e)[:100]), rep)
         # malformed lengths: an error, not a wrong answer
         for what, f, size in (("encoder", lambda v: quiet(enc, v), k), ("inverse_encode", lambda v: quiet(enc.inverse_encode, v), n)):
             if size > 1:
